@@ -429,6 +429,10 @@ func (s *vsrvSession) start() {
 		h2.NewWriteScheduler = func() WriteScheduler { return NewRandomWriteScheduler() }
 	case "rfc7540":
 		h2.NewWriteScheduler = func() WriteScheduler { return NewPriorityWriteScheduler(nil) }
+	case "rfc7540-throttle":
+		h2.NewWriteScheduler = func() WriteScheduler {
+			return NewPriorityWriteScheduler(&PriorityWriteSchedulerConfig{MaxClosedNodesInTree: 10, MaxIdleNodesInTree: 10, ThrottleOutOfOrderWrites: true})
+		}
 	}
 	if s.cfg.Tune != nil {
 		s.cfg.Tune(h1, h2)
@@ -655,6 +659,11 @@ func vsrvGetFields(path string, extra ...vsrvField) []vsrvField {
 // cliHeaders opens a stream (or sends trailers) with one HEADERS frame.
 func (s *vsrvSession) cliHeaders(stream uint32, endStream bool, fields []vsrvField) {
 	s.cliWrite(h2ref.AppendHeaders(nil, stream, endStream, true, vsrvEncodeFields(fields), nil, -1))
+}
+
+// cliHeadersPrio: HEADERS carrying an RFC 7540 priority section.
+func (s *vsrvSession) cliHeadersPrio(stream uint32, endStream bool, fields []vsrvField, prio h2ref.Priority) {
+	s.cliWrite(h2ref.AppendHeaders(nil, stream, endStream, true, vsrvEncodeFields(fields), &prio, -1))
 }
 
 // setPlan registers what the handler of a stream will do.
@@ -1379,7 +1388,7 @@ func vsrvPanicKey(sched, p string) string {
 	if i := strings.IndexByte(first, '\n'); i >= 0 {
 		first = first[:i]
 	}
-	if sched == "rfc7540" && strings.Contains(first, "nil pointer dereference") && strings.Contains(p, "startFrameWrite") {
+	if strings.HasPrefix(sched, "rfc7540") && strings.Contains(first, "nil pointer dereference") && strings.Contains(p, "startFrameWrite") {
 		return "c12-rfc7540-zero-request"
 	}
 	if len(first) > 70 {
